@@ -34,6 +34,7 @@ func run(c *vf.Ctx) {
 	c.Set("scopes", len(scopes))
 	nameObligations(c, names, scopes)
 	packetObligations(c, names, scopes)
+	histories(c)
 }
 
 // ------------------------------------------------------------------ lattices
